@@ -18,18 +18,19 @@ def _runs(tier):
             {"harness": "c16_tree_prod", "args": ["--mode", "row", "--keys", "8", "--minsize", "7"], "budget": 150},
             {"harness": "c16_rows", "args": ["--depth", "2"], "budget": 150},
         ]
-    # budgets add up to 2600 s so that the tier terminates by itself within 45 minutes even on a loaded machine
-    # (measured on 16 free cores: 40 s, 60 s, 205 s, 170 s, 360 s; --keys 14 closes in about 11 minutes: 874k+ layouts)
+    # budgets add up to 2700 s so that the tier terminates by itself within 45 minutes even on a loaded machine
+    # (measured on 16 fairly free cores: 40 s, 60 s, 205 s, 170 s, 200 s; at load average 120: 104 s, 164 s, 458 s, 278 s;
+    #  --mode tree --keys 14 closes in about 11 minutes on 16 free cores: 874k+ layouts)
     return [
-        {"harness": "c16_tree", "args": ["--mode", "tree", "--keys", "10"], "budget": 250},
-        {"harness": "c16_tree", "args": ["--mode", "row", "--keys", "8", "--minsize", "7"], "budget": 350},
-        {"harness": "c16_tree_prod", "args": ["--mode", "tree", "--keys", "13"], "budget": 800},
+        {"harness": "c16_tree", "args": ["--mode", "tree", "--keys", "10"], "budget": 200},
+        {"harness": "c16_tree", "args": ["--mode", "row", "--keys", "8", "--minsize", "7"], "budget": 300},
+        {"harness": "c16_tree_prod", "args": ["--mode", "tree", "--keys", "13"], "budget": 750},
         {"harness": "c16_tree_prod", "args": ["--mode", "row", "--keys", "10", "--minsize", "9"], "budget": 500},
-        {"harness": "c16_rows", "args": ["--depth", "3"], "budget": 700},
+        {"harness": "c16_rows", "args": ["--depth", "3"], "budget": 950},
     ]
 
 CHECKS = {
-    "C16": {"runs": _runs, "level": "model_checking", "deadline": {"quick": 280, "thorough": 2600},
+    "C16": {"runs": _runs, "level": "model_checking", "deadline": {"quick": 280, "thorough": 2700},
             "assumptions": ["CO_Tree never branches on the data stored with a key (data are canonicalised to key+1 between transitions; data-dependent Sparse_Row operations are run with a fixed menu of data patterns)",
                             "iterators invalidated by a mutation are never reused (documented precondition); hints are every live position and end(), plus iterators documented to survive (fast_shift, fast_swap, add_zeroes_and_shift)",
                             "aliased Linear_Expression calls (e -= e) belong to property C13 and are excluded"]},
